@@ -601,6 +601,13 @@ func c11Run(c *Ctx) {
 		arrs = append(arrs, vArr(vInt(1), vInt(2), vInt(3)), vArr(vStr("a"), vStr("b"), vStr("c"), vStr("d")), vArr(vArr(vInt(1)), vArr(vInt(1)), vInt(1)))
 	}
 	ints := []Val{vInt(math.MinInt64), vInt(-10), vInt(-1), vInt(0), vInt(1), vInt(9), vInt(10), vInt(math.MaxInt64), vInt(123)}
+	// every power of ten and its two neighbours (digit counts, rounding of conversions through floats)
+	for p10 := int64(100); p10 > 0 && p10 <= 1000000000000000000; p10 *= 10 {
+		ints = append(ints, vInt(p10-1), vInt(p10), vInt(p10+1), vInt(-p10), vInt(-p10+1))
+		if p10 == 1000000000000000000 {
+			break
+		}
+	}
 	floats := []Val{vFloat(-1.5), vFloat(-0.5), vFloat(0), vFloat(0.4), vFloat(0.5), vFloat(1.5), vFloat(2.5), vFloat(-2.5), vFloat(3.99),
 		vFloat(1e19), vFloat(-1e19), vFloat(9.3e18), vFloat(9223372036854775808), vFloat(-9223372036854775808), vFloat(9223372036854774784)}
 	bools := []Val{vBool(true), vBool(false)}
